@@ -18,6 +18,7 @@ from ..facts import AnalysisError
 from ..sym import enum_members
 from ..terms import const, contains, show, strip_sites, subterms
 from ..util import InlineOnly, NoInline, P, Scan, calls_to, engine, loc, param_at
+from .derived import cache_coherence
 from .C10 import TIMING_VALUATIONS, sleep_arg, timing_leaf
 
 SUBS = "sd.ServiceSubscriber"
@@ -35,6 +36,8 @@ def check(run, prog, tier):
     )
     run.trusted += ["asyncio ready queue is FIFO", "socket.getnameinfo returns the numeric host/port of the sockname"]
     scan = Scan(prog)
+    # "the eventgroups currently requested": nothing may answer from a stale copy of the requested set
+    cache_coherence(run, prog, "M6", [SUBS])
     slots = Slots(prog, scan)
     m = {n: prog.lookup_method(SUBS, n) for n in ("subscribe_eventgroup", "stop_subscribe_eventgroup", "stop", "start", "_subscribe",
                                                   "_send_subscribe", "_send_start_subscribe", "_send_stop_subscribe", "_group_entries")}
